@@ -48,29 +48,56 @@ pub fn gen(seed: u64, tier: Tier, k: u64) -> Value {
     let mut items: Vec<Item> = vec![];
     let blocks = tier.pick(10, 24) + (seq % 4) as usize * 2;
     for b in 0..blocks {
-        match rng.below(5) {
+        match rng.below(7) {
             0 | 1 => {
                 // 4095 one-byte items close a cluster through the blob-count limit (compressed or raw)
                 let hint = if rng.chance(3, 4) { Hint::Yes } else { Hint::No };
                 for _ in 0..4095 {
-                    items.push(Item { len: 1 + (b % 3), ent: Ent::Low4, hint, src: Src::Mem, dup_of: None });
+                    items.push(Item { len: 1 + (b % 3), ent: Ent::Low4, hint, src: Src::Mem, dup_of: None, cat_of: None });
                 }
             }
             2 | 3 => {
                 // two contents of 2.1 MiB close a compressed cluster through the size limit; several in a row fill the queue
                 for _ in 0..rng.range(2, 6) {
-                    items.push(Item { len: 2_200_000 + rng.below(1000) as usize, ent: Ent::Low4, hint: Hint::Yes, src: Src::Mem, dup_of: None });
+                    items.push(Item { len: 2_200_000 + rng.below(1000) as usize, ent: Ent::Low4, hint: Hint::Yes, src: Src::Mem, dup_of: None, cat_of: None });
+                }
+            }
+            4 => {
+                // interleaved raw contents (go straight to the writer thread)
+                for _ in 0..rng.range(1, 30) {
+                    items.push(Item { len: rng.range(0, 5000) as usize, ent: Ent::High, hint: Hint::No, src: Src::Mem, dup_of: None, cat_of: None });
+                }
+            }
+            5 => {
+                // raw and compressed contents from memory and from files in the same clusters (file-backed sources are
+                // copied by the writer thread from the file itself, memory-backed ones from the buffer handed over)
+                for _ in 0..rng.range(4, 40) {
+                    let src = match rng.below(4) {
+                        0 | 1 => Src::Mem,
+                        2 => Src::File,
+                        _ => Src::Range { before: *rng.pick(&[1usize, 4096, 5000]), after: *rng.pick(&[0usize, 9]) },
+                    };
+                    let hint = if rng.chance(2, 3) { Hint::No } else { *rng.pick(&[Hint::Yes, Hint::Detect]) };
+                    items.push(Item { len: *rng.pick(&[0usize, 1, 300, 4096, 9000, 70_000, 300_000]), ent: *rng.pick(&[Ent::High, Ent::Text]), hint, src, dup_of: None, cat_of: None });
                 }
             }
             _ => {
-                // interleaved raw contents (go straight to the writer thread)
-                for _ in 0..rng.range(1, 30) {
-                    items.push(Item { len: rng.range(0, 5000) as usize, ent: Ent::High, hint: Hint::No, src: Src::Mem, dup_of: None });
+                // one content of a cluster or more (it gets a cluster of its own), then a duplicate of an earlier content
+                let src = if rng.chance(1, 2) { Src::Mem } else { Src::File };
+                items.push(Item { len: 4 * 1024 * 1024 + rng.below(3) as usize * 4096, ent: Ent::Low4, hint: *rng.pick(&[Hint::Yes, Hint::Yes, Hint::No, Hint::Detect]), src, dup_of: None, cat_of: None });
+                if !items.is_empty() {
+                    let j = rng.usize_below(items.len());
+                    if items[j].dup_of.is_none() && items[j].cat_of.is_none() {
+                        let mut it = items[j].clone();
+                        it.dup_of = Some(j);
+                        items.push(it);
+                    }
                 }
             }
         }
     }
-    let case = ContentCase { seed: mix(seed ^ seq), comp, cached: false, items };
+    // every third sequence goes through the deduplicating adder (it hashes, buffers or rewinds the source before handing it over)
+    let case = ContentCase { seed: mix(seed ^ seq), comp, cached: seq % 3 == 1, items };
     json!({"seq": seq, "workers": workers, "delay_seed": dseed, "profile": PROFILES[((seq + dseed) % 4) as usize], "content": case.to_json()})
 }
 
